@@ -110,6 +110,9 @@ pub struct Config
     pub update_after_top: bool,
     /// Issue a final `Gc` + `Poll` at the end of every program.
     pub final_gc: bool,
+    /// When non-empty, only verdicts of these properties (and machinery verdicts `*`) are kept for this configuration:
+    /// the universe contains behaviour that the other rules of the monitor do not model.
+    pub only_props: Vec<&'static str>,
     /// Frame mode: chosen top-level operations are issued by plain Bevy systems of the App's `Update` schedule, up
     /// to `.0` systems per frame, `.1` = chained (a sync point between consecutive systems) or unordered (deferred
     /// commands applied together); `max_top` is then the number of frames and every frame is a full `App::update()`.
@@ -170,6 +173,7 @@ impl Config
             max_runs: 64,
             update_after_top: false,
             final_gc: false,
+            only_props: vec![],
             auto_ents: vec![],
             actor_signals: vec![],
             world_route: false,
